@@ -206,6 +206,21 @@ int main(int argc, char **argv) {
     else _exit(3);
     (void)r;
     _exit(0);
+  } else if (!strcmp(c, "tree")) {
+    // tree N TOKEN [setsid]: N descendants (two generations), every one ignoring all signals; sleeps for a minute
+    int n = atoi(argv[2]);
+    for (int s = 1; s < 65; s++) signal(s, SIG_IGN);
+    for (int i = 0; i < n; i++) {
+      pid_t p = fork();
+      if (p == 0) {
+        if (argc > 4 && !strcmp(argv[4], "setsid")) setsid();
+        if (fork() == 0) { for (;;) { struct timespec ts = {1, 0}; nanosleep(&ts, NULL); } }
+        for (;;) { struct timespec ts = {1, 0}; nanosleep(&ts, NULL); }
+      }
+    }
+    write(1, "up\n", 3);
+    for (int k = 0; k < 60; k++) { struct timespec ts = {1, 0}; nanosleep(&ts, NULL); }
+    _exit(0);
   } else if (!strcmp(c, "hello")) {
     write(1, "hello\n", 6); _exit(0);
   }
